@@ -1870,6 +1870,8 @@ def _len(interp, args, kwargs):
     hook = interp.externals.get("len")
     if hook is not None:
         return hook(interp, [value], {})
+    if value is None or isinstance(value, (bool, int, float)):
+        interp.raise_("builtins.TypeError", "object of type %r has no len()" % type(value).__name__)
     raise Undecided("len of %r" % (value,))
 
 
